@@ -76,6 +76,11 @@ def run(chk):
             given = d
             if rnd.random() < 0.6:
                 kw['strip'] = True
+        elif mode == 1 and i % 40 == 1:
+            # more distinct examples than Size.do_all (100), default sizes: every one of them is still an example
+            ids_ = sorted({'id%04d' % rnd.randint(0, 9999) for _ in range(104)}) + ['%s-%d' % (rnd.choice('ABC'), k_) for k_ in range(8)]      # ~110 distinct
+            given = ids_ if rnd.random() < 0.5 else {s_: rnd.randint(1, 2) for s_ in ids_}
+            kw, sizekw = {}, None
         elif mode == 1:
             given = list(ex) + [e for e in ex if e is not None]      # repeats
         elif mode == 2 and i % 8 == 2:
